@@ -2,6 +2,7 @@ package client
 
 import (
 	"fmt"
+	"sync"
 	"time"
 
 	pkts "github.com/energomonitor/bisquitt/packets"
@@ -23,6 +24,9 @@ type sleepTransaction struct {
 	sleepDuration       time.Duration
 	state               transactionState
 	timer               *time.Timer
+	// Guards the DISCONNECT exchange: the API call which starts it, the resend
+	// timer and the receive loop which ends it run concurrently.
+	mutex sync.Mutex
 }
 
 func newSleepTransaction(client *Client, sleepDuration time.Duration) *sleepTransaction {
@@ -63,6 +67,9 @@ func (t *sleepTransaction) Fail(e error) {
 }
 
 func (t *sleepTransaction) Sleep() error {
+	t.mutex.Lock()
+	defer t.mutex.Unlock()
+
 	state := t.client.state.Get()
 	switch state {
 	case util.StateActive:
@@ -83,6 +90,13 @@ func (t *sleepTransaction) Sleep() error {
 }
 
 func (t *sleepTransaction) resendDisconnect() {
+	t.mutex.Lock()
+	defer t.mutex.Unlock()
+
+	if t.disconnect == nil {
+		// The DISCONNECT has been acknowledged while the timer was firing.
+		return
+	}
 	t.disconnectResendNum++
 	if t.disconnectResendNum > t.retryCount {
 		t.log.Debug("DISCONNECT reply timeout.")
@@ -98,6 +112,9 @@ func (t *sleepTransaction) resendDisconnect() {
 }
 
 func (t *sleepTransaction) Disconnect(disconnect *pkts1.Disconnect) {
+	t.mutex.Lock()
+	defer t.mutex.Unlock()
+
 	if t.state != awaitingDisconnect {
 		t.log.Debug("Unexpected packet in %d: %v", t.state, disconnect)
 		return
